@@ -7,6 +7,8 @@ import Rpcx.Props.C02
     connection, each block issues exactly ONE Conn.Write, of the WHOLE encoded buffer, and
     returns the pooled buffer only AFTER the write; and there is no other write to a
     connection in those files (no piecewise write, no shared buffered writer).
+  * `pooled_frame_decodes`: what a write site hands to Conn.Write (EncodeSlicePointer's buffer) is
+    one whole frame.
   * `stream_of_whole_frames`: if every write event is a whole encoded frame then, for EVERY
     order in which the transport serialises the write events of any number of writers, the
     byte stream decodes to exactly those frames, in that order – in particular to a
@@ -31,6 +33,15 @@ theorem frame_decodes (reg : Registry) (hl : Props.C01.Lawful reg) (m : Msg) (hw
     (he : encodeStream reg m = .ok bs) (hsz : bs.length < 4294967296) :
     decode ⟨0, reg⟩ bs = .ok (m, []) := by
   have := Props.C01.roundtrip_stream reg hl m hwf bs [] he hsz
+  simpa using this
+
+/-- the buffer every write site passes to Conn.Write – the result of `EncodeSlicePointer`, interpreted
+    from its regenerated write list, for any stale pool buffer – is a whole frame: it decodes to the
+    message (compress bits cleared only where that encoder gives up compressing) and leaves nothing -/
+theorem pooled_frame_decodes (reg : Registry) (hl : Props.C01.Lawful reg) (m : Msg) (hwf : Props.C01.WF m) (stale bs : Bytes)
+    (he : encodeBuf reg m stale = some bs) (hsz : bs.length < 4294967296) :
+    decode ⟨0, reg⟩ bs = .ok ({ m with hdr := (zipLenient reg m.hdr m.payload).1 }, []) := by
+  have := Props.C01.roundtrip_buf reg hl m hwf stale bs [] he hsz
   simpa using this
 
 /-- whatever order the transport serialises whole-frame writes in, the stream decodes to
